@@ -21,9 +21,17 @@ Print Assumptions C09_context.
 
 (* cancel() ends only that task *)
 Theorem C09_cancel_one : forall v s k j, j <> k -> ph s = Open ->
+  oncancel_of s k = None \/ swallowed v = true ->
   tstate_of (fst (fire v s (GCancel k))) j = tstate_of s j.
 Proof. exact cancel_only_that_task. Qed.
 Print Assumptions C09_cancel_one.
+
+(* an Exception that escapes a task while it is being cancelled is an escaping Exception *)
+Theorem C09_cancelled_task_raising : forall v s k e n, ph s = Open -> tstate_of s k = TRun n -> oncancel_of s k = Some e ->
+  (swallowed v = false -> ph (fst (fire v s (GCancel k))) = Crashed e) /\
+  (forall verdict, v = Some verdict -> In (Handler k e) (snd (fire v s (GCancel k)))).
+Proof. exact cancelled_task_raising. Qed.
+Print Assumptions C09_cancelled_task_raising.
 
 (* tearing the owning context down waits for -- does not cancel -- the running tasks *)
 Theorem C09_teardown_waits : forall v s, ph s = Open ->
